@@ -94,44 +94,44 @@ PLANS = {
         "slices from present start vertices under 7 predicates (accept-all, reject-all, 30/50/80 % tables, label-based, not-into-one-vertex); "
         "oracle = closure computed from the source's kids(); predicate-call bound as termination check; non-trivial = slice over a cyclic "
         "reachable part with a rejected edge whose target is kept through another edge",
-        (1500, 12), (25000, 150), mode="sink"),
+        (3000, 12), (50000, 150), mode="sink"),
     "C18": hist(
         "graphs reached by mixed/cross/re-add histories after collections; to_xml() parsed with sxd-document and to_dot() with a line "
         "grammar, compared with keys()/kids()/model data every ~8 calls; canonicity by a twin build of the same abstract graph (other "
         "insertion orders, other N and capacity, detours through collected ids, overwritten data) compared byte for byte; non-trivial = "
         "graph with a collected id, a never-added id and a vertex with >=2 edges and data",
-        (1500, 12), (25000, 150)),
+        (3000, 12), (50000, 150)),
     "C20": hist(
         "graphs reached by mixed/cross/full histories; inspect() from present start vertices parsed back by indentation and compared "
         "edge-for-edge with kids() of every reachable vertex (exactly once), line-count bound; Debug/Display entries and v_print() parsed "
         "and compared with keys()/kids()/model data; non-trivial = start vertex from which a cycle and a vertex of in-degree >= 2 are reachable",
-        (1500, 12), (25000, 150), mode="sink"),
+        (3000, 12), (50000, 150), mode="sink"),
     "C11": hist(
         "small-scope sweep: every ordered left tree <= 3 vertices x every left vertex x every ordered right tree <= 4 (5 thorough) vertices x "
         "all 3^k placements of {no, inline, heap} data; plus random trees up to 9 (12) vertices on arbitrary ids with a GC history in the left "
         "graph; after the merge: structure (paths, injectivity, old edges, vertex count, right graph unchanged) and a read/drain continuation "
         "judged by the C01 trace rules, the reference model and byte read-back; non-trivial = partial overlap, data in the right tree, >=1 new "
         "vertex and a group dying in the continuation",
-        (300, 12), (6000, 150), floor=30),
+        (2500, 12), (40000, 150), floor=30),
     "C12": hist(
         "right graph = random tree + 0..6 extras (isolated vertices with/without data, detached sub-trees, right below the root), random left "
         "tree and left vertex; oracle = reachability in the right graph computed from its build ops; Ok must imply completeness, Err must "
         "name (as nu<id>) every missed vertex, control cases without extras must return Ok; non-trivial = a detached sub-tree of >=2 vertices "
         "or right below the root",
-        (1500, 8), (30000, 100)),
+        (20000, 8), (400000, 100)),
     "C14": hist(
         "ASTs of 1..40 ADD/BIND/PUT commands over literal ids and up to 6 variables on top of a random base history, rendered with random "
         "legal formatting (spaces, tabs, newlines, nu-prefixes, comments containing ; ) #, hex in mixed case with/without dashes and inner "
         "whitespace); twin = the same graph driven by direct calls; digests + snapshot compared, then a 20-call continuation and a drain on both; "
         "one third of the programs carry one of 12 single-fault corruptions: Err required, graph == preceding commands applied; non-trivial = "
         "a variable used in >=2 commands, a comment and a datum > 8 bytes",
-        (700, 10), (12000, 120), floor=30),
+        (5000, 10), (80000, 120), floor=30),
     "C19": hist(
         "mixed histories (merge and slice included) generated for (N0,cap0), replayed in the same process, in a second process (fresh "
         "RandomState, other ASLR) and under 4 (8 thorough) other configurations N>=N0, cap>=cap0; the prefix hashes of the full observation "
         "trace (every return value incl. kids() order and allocated ids, keys/kids/kid/v_print after every call, all printers every 16 calls) "
         "must agree; non-trivial = history with a merge creating >=2 vertices or a slice of >=3 vertices, replayed under >=3 other configurations",
-        (150, 14), (2500, 150), floor=20),
+        (450, 14), (8000, 150), floor=20),
     "C07": {
         "common": {
             "level": "exploration",
